@@ -166,9 +166,14 @@ pub fn c01_eval(s: &str, acc: &mut Acc, full: bool) {
     acc.evals += 1;
     let n = s.chars().count() as u64;
     let mut first: Option<Obs> = None;
+    // quick tier: long inputs (boundary chunks of a thousand characters) get a reduced configuration set
+    let heavy = !full && s.len() > 600;
     for b in C01_BACKENDS {
         for api in C01_APIS {
             if !full && !(api == Api::Iter || b == Backend::Str || b == Backend::Gen(8, true)) {
+                continue;
+            }
+            if heavy && !(matches!(b, Backend::Str | Backend::Buf | Backend::Gen(8, true)) && (api == Api::Iter || b == Backend::Gen(8, true))) {
                 continue;
             }
             let is_gen = matches!(b, Backend::Gen(..));
@@ -207,6 +212,9 @@ pub fn c01_eval(s: &str, acc: &mut Acc, full: bool) {
     let mut ok = None;
     for which in 0..4u8 {
         if !full && which == 1 {
+            continue;
+        }
+        if heavy && which != 0 {
             continue;
         }
         let rs = [c01_loader::<Yaml>(s, which), c01_loader::<YamlOwned>(s, which), c01_loader::<MarkedYaml>(s, which), c01_loader::<MarkedYamlOwned>(s, which)];
@@ -744,7 +752,7 @@ pub fn c14_eval(s: &str, acc: &mut Acc) {
 
 pub fn wall_cap(tier: Tier) -> u64 {
     let d = match tier {
-        Tier::Quick => 50,
+        Tier::Quick => 150,
         Tier::Thorough => 40 * 60,
     };
     std::env::var("VERIF_WALL_CAP").ok().and_then(|s| s.parse().ok()).unwrap_or(d)
